@@ -80,12 +80,19 @@ class Vars:
         self.bools.append(b)
         return SBool(b)
 
-    def time(self, name, nat=False):
+    def time(self, name, nat=False, frac=False):
         from . import calendar_model as cal
         s = z3.Int(name)
         self.names.append(name)
         self.assumptions += [s >= cal.t_lo(), s < cal.t_hi()]
-        return STime(s, z3.Bool(name + "!nat") if nat else FALSE)
+        f = None
+        if frac:
+            # sub-second part: any real in [0,1) for the proof; a multiple of 1/8 s (exact in ns) when a model is replayed
+            f = z3.Real(name + "!frac")
+            self.assumptions += [f >= 0, f < 1]
+            k = z3.Int(name + "!fk")
+            self.grid.append(f * 8 == z3.ToReal(k))
+        return STime(s, z3.Bool(name + "!nat") if nat else FALSE, f)
 
     def string(self, name, maxlen, alphabet=None):
         """bounded symbolic string; code points restricted to `alphabet` (list of (lo, hi) ranges) if given"""
@@ -103,11 +110,17 @@ class Vars:
             chars.append(c)
         return SStr(chars, ln)
 
-    def times_increasing(self, prefix, n, min_step=1, max_step=2 ** 22):
-        ts = [self.time(f"{prefix}{i}") for i in range(n)]
+    def times_increasing(self, prefix, n, min_step=1, max_step=2 ** 22, frac=False):
+        ts = [self.time(f"{prefix}{i}", frac=frac) for i in range(n)]
         for a, b in zip(ts, ts[1:]):
-            self.assumptions += [b.s - a.s >= min_step, b.s - a.s <= max_step]
-            self.terms.append((b.s - a.s, min_step, max_step))
+            if frac:
+                # whole seconds elapsed = floor of the difference; keep it >= min_step
+                d = (b - a)
+                self.assumptions += [d.s >= min_step, d.s <= max_step]
+                self.terms.append((d.s, min_step, max_step))
+            else:
+                self.assumptions += [b.s - a.s >= min_step, b.s - a.s <= max_step]
+                self.terms.append((b.s - a.s, min_step, max_step))
         return ts
 
 
@@ -134,11 +147,18 @@ def concretize(x, model):
     if isinstance(x, STime):
         if z3.is_true(_ev(model, x.nat)):
             return np.datetime64("NaT", "ns")
-        return np.datetime64(_ev(model, x.s).as_long(), "s").astype("datetime64[ns]")
+        base = np.datetime64(_ev(model, x.s).as_long(), "s").astype("datetime64[ns]")
+        if getattr(x, "f", None) is not None:
+            q = _numval(_ev(model, x.f))
+            base = base + np.timedelta64(int(q * 10 ** 9), "ns")
+        return base
     if isinstance(x, SDelta):
         if z3.is_true(_ev(model, x.nat)):
             return np.timedelta64("NaT", "ns")
-        return np.timedelta64(_ev(model, x.s).as_long(), "s").astype("timedelta64[ns]")
+        base = np.timedelta64(_ev(model, x.s).as_long(), "s").astype("timedelta64[ns]")
+        if getattr(x, "f", None) is not None:
+            base = base + np.timedelta64(int(_numval(_ev(model, x.f)) * 10 ** 9), "ns")
+        return base
     from .symstr import SStr
     if isinstance(x, SStr):
         n = _ev(model, x.length).as_long()
@@ -239,7 +259,10 @@ class SymKit:
         return snp.ndarray.from_list(vals, f"datetime64[{unit}]", owner=owner)
 
     def epoch_array(self, vals, owner="caller"):
-        """times as integer seconds since the epoch"""
+        """times as seconds since the epoch: int64 when whole, float64 when they carry a sub-second part"""
+        if any(getattr(t, "f", None) is not None for t in vals):
+            return snp.ndarray.from_list([SFloat(FALSE, z3.ToReal(t.s) + (t.f if t.f is not None else 0)) for t in vals],
+                                         "float64", owner=owner)
         return snp.ndarray.from_list([SInt(t.s) for t in vals], "int64", owner=owner)
 
     def scalar(self, v):
@@ -281,7 +304,10 @@ class RealKit:
         return np.array(vals, dtype=f"datetime64[{unit}]")
 
     def epoch_array(self, vals, owner=None):
-        return np.array([int(np.datetime64(v, "s").astype("int64")) for v in vals], dtype="int64")
+        ns = [int(np.datetime64(v, "ns").astype("int64")) for v in vals]
+        if any(x % 10 ** 9 for x in ns):
+            return np.array([x / 10 ** 9 for x in ns], dtype="float64")
+        return np.array([x // 10 ** 9 for x in ns], dtype="int64")
 
     def tnone(self, v):
         return None if np.isnat(v) else v
